@@ -315,7 +315,7 @@ Definition werr_tr (e : werr) : tr :=
 Definition out_tr (o : out) : tr :=
   match o with
   | ONone => Nd [Nn 0]
-  | OData d => Nd [Nn 1; Bs d]
+  | OData d => if BIG <? nlen d then Nd [Nn 5; Nn (nlen d); Nn (digest d)] else Nd [Nn 1; Bs d]
   | OTrailers t => Nd [Nn 2; hm_canon t]
   | OErr e => Nd [Nn 3; werr_tr e]
   | OPending => Nd [Nn 4]
@@ -333,6 +333,42 @@ Definition obs_client (evs : list ev) : tr :=
   let '(l, s, i) := drain (poll_cap evs) init (mk_inner evs) in
   let '(l2, s2, i2) := if is_final (last l OPanic) then polls 2 s i else ([], s, i) in
   Nd [olist out_tr l; olist out_tr l2; Nn (i_polls i2); Nn (i_ends i2)].
+
+(* ---------- a hyper-like consumer (Body::is_end_stream) ---------- *)
+(* GrpcWebCall::is_end_stream (fix f0f96413): in the Decode direction the stream has ended only
+   once the wrapped body has AND nothing is buffered any more (the client never uses [buf]) *)
+Definition call_is_end_stream (mode : N) (s : st) (i : inner) : bool :=
+  match dir s with
+  | Empty => true
+  | Decode =>
+      inner_eos mode (i_evs i) && negb (nonempty (decoded s))
+      && match trailers s with None => true | Some _ => false end
+  end.
+
+(* a consumer that, like hyper, asks is_end_stream() before the first poll and after every data
+   frame and stops when it is true; trailers, the end and errors stop it as well *)
+Fixpoint hyper_client (n : nat) (mode : N) (s : st) (i : inner) : list out * bool * st * inner :=
+  match n with
+  | O => ([OOutOfFuel], false, s, i)
+  | S n' =>
+      match poll_frame (fuel_of i) s i with
+      | (OPending, s', i') => hyper_client n' mode s' i'
+      | (OData d, s', i') =>
+          if call_is_end_stream mode s' i' then ([OData d], true, s', i')
+          else let '(l, b, s'', i'') := hyper_client n' mode s' i' in (OData d :: l, b, s'', i'')
+      | (o, s', i') => ([o], false, s', i')
+      end
+  end.
+
+(* what that consumer takes, whether is_end_stream stopped it, and - the contract of
+   http_body::Body::is_end_stream - what further polling would still have produced *)
+Definition obs_client_hyper (mode : N) (evs : list ev) : tr :=
+  if call_is_end_stream mode init (mk_inner evs) then
+    Nd [Nd []; Nn 1; olist out_tr (fst (fst (drain (poll_cap evs) init (mk_inner evs))))]
+  else
+    let '(l, b, s, i) := hyper_client (poll_cap evs) mode init (mk_inner evs) in
+    Nd [olist out_tr l; obool b;
+        olist out_tr (if b then fst (fst (drain (poll_cap evs) s i)) else [])].
 
 (* the trailers block alone *)
 Definition dres_tr (d : dres) : tr :=
